@@ -64,7 +64,7 @@ fn check_param(got: f64, chains: &rs::Chains, pm: &ParamModel, cov: &mut Cov, wh
     }
 }
 
-fn check_arr(case: &ArrCase, cov: &mut Cov) -> CheckResult {
+pub fn check_arr(case: &ArrCase, cov: &mut Cov) -> CheckResult {
     let per_param = gen_all(case);
     let arr = to_array3(&per_param);
     let ess = lib_ess(&arr)?;
